@@ -144,6 +144,12 @@ FbOverlap == << [n |-> "fb/F", c |-> 4], [n |-> "dev/A", c |-> 6] >>     \* the 
 FacPlain  == << [n |-> "fac/G", c |-> 5] >>
 FacOverlap == << [n |-> "fac/G", c |-> 5], [n |-> "fb/F", c |-> 7], [n |-> "dev/B", c |-> 8] >>  \* the fallback wins
 ReqNames  == {"dev/A", "dev/B", "fb/F", "fac/G", "nope", ""}
+\* names that are not empty but "look" empty or equal to another name: only "" is absent, every other
+\* name is a name of its own and must reach the router / the handler byte for byte
+BlankNames == {" ", "\t", "\n", "   ", " dev/A", "dev/A ", "DEV/a", "Dflt"}
+\* ... two of them registered, so that "unaltered" is also seen as "reaches its own client"
+RegBlank  == << [n |-> "dev/A", c |-> 1], [n |-> "dev/B", c |-> 2], [n |-> "dflt", c |-> 3],
+                [n |-> " ", c |-> 9], [n |-> "dev/A ", c |-> 10] >>
 H0 == <<>>
 H1 == << [k |-> "h-one", v |-> <<"1">>] >>
 H2 == << [k |-> "h-a", v |-> <<"x", "y">>], [k |-> "h-b", v |-> <<"">>] >>
@@ -160,7 +166,7 @@ Script(id, name, icpt, reg, hasfb, fb, hasfac, fac, refuse, typed, k, hdr, trl, 
 (* MC: the forwarder as a step machine                                     *)
 MCScripts ==
   { Script(0, name, icpt, reg, hasfb, FbOverlap, hasfac, FacOverlap, "nil", FALSE, k, H1, T1, errAt, "Aborted", cf, 1) :
-      name \in ReqNames, icpt \in BOOLEAN, reg \in {RegFull, RegNoDflt}, hasfb \in BOOLEAN, hasfac \in BOOLEAN,
+      name \in ReqNames \cup {" ", "dev/A ", "\t"}, icpt \in BOOLEAN, reg \in {RegFull, RegNoDflt, RegBlank}, hasfb \in BOOLEAN, hasfac \in BOOLEAN,
       k \in 0..MaxK, errAt \in -3..MaxK, cf \in -1..(MaxK + 1) }
 
 Blank(sc, st) ==
@@ -249,8 +255,11 @@ RandScript(z) ==
       errAt == IF Flip(z, 55) THEN -1 ELSE R({-2, -3} \cup 0..k)
       cf == IF Flip(z, 25) THEN R(0..(k + 1)) ELSE -1
       hasfb == Flip(z, 50)  hasfac == Flip(z, 50)
-  IN Script(z, W(<<"dev/A", "dev/A", "dev/A", "dev/B", "dev/B", "fb/F", "fb/F", "fac/G", "fac/G", "nope", "", "">>),
-            Flip(z, 40), IF Flip(z, 75) THEN RegFull ELSE RegNoDflt,
+      blank == Flip(z, 20)
+  IN Script(z, IF blank THEN R(BlankNames)
+               ELSE W(<<"dev/A", "dev/A", "dev/A", "dev/B", "dev/B", "fb/F", "fb/F", "fac/G", "fac/G", "nope", "", "">>),
+            IF blank THEN Flip(z, 70) ELSE Flip(z, 40),
+            IF blank /\ Flip(z, 50) THEN RegBlank ELSE IF Flip(z, 75) THEN RegFull ELSE RegNoDflt,
             hasfb, IF hasfb THEN (IF Flip(z, 50) THEN FbPlain ELSE FbOverlap) ELSE <<>>,
             hasfac, IF hasfac THEN (IF Flip(z, 50) THEN FacPlain ELSE FacOverlap) ELSE <<>>,
             R({"nil", "err"}), Flip(z, 50), k, R({H0, H1, H2}), R({H0, T1, T2}), errAt, R(Codes), cf, W(<<1, 1, 2>>))
@@ -269,7 +278,12 @@ CoreScripts ==
     Script(0, "dev/A", FALSE, RegFull, FALSE, <<>>, FALSE, <<>>, "nil", FALSE, 3, H1, T1, -1, "Aborted", 2, 1),
     Script(0, "dev/A", TRUE, RegFull, FALSE, <<>>, FALSE, <<>>, "nil", FALSE, 2, H1, T1, -3, "InvalidArgument", -1, 1) }
 
-GenInit == /\ s \in CoreScripts \cup { RandScript(z) : z \in 1..NCases }
+\* ... and every look-empty name behind the interceptor, on every method, whatever the seed
+CoreBlank ==
+  { Script(0, n, TRUE, IF n \in {" ", "\t", "dev/A "} THEN RegBlank ELSE RegFull, FALSE, <<>>, FALSE, <<>>, "nil", FALSE,
+           1, H1, T1, -1, "Aborted", -1, 1) : n \in BlankNames }
+
+GenInit == /\ s \in CoreScripts \cup CoreBlank \cup { RandScript(z) : z \in 1..NCases }
            /\ stream = FALSE /\ pc = "gen" /\ i = 0 /\ o = 0
 GenNext == UNCHANGED vars
 EmitCase == PrintT("CASE " \o ToJson(s))
